@@ -251,6 +251,7 @@ Definition finish_row (st1 : istate) : getrow_result :=
               GRRow {| er_line := de_line row; er_inputs := inputs; er_expected := expected;
                        er_update_output := de_update_output row |}
                     {| i_ctx := i_ctx st1; i_iter := i_iter st1; i_outidx := i_outidx st1;
+                       i_nout := i_nout st1;
                        i_prev := Some (de_entries row); i_cache := rest; i_log := i_log st1 |}
           | Panic s => GRPanic s
           | _ => GRPanic 0%N
@@ -288,7 +289,8 @@ Qed.
 Lemma finish_row_inv : forall st1,
   match finish_row st1 with
   | GRRow er st2 => i_ctx st2 = i_ctx st1 /\ i_iter st2 = i_iter st1 /\
-                    i_outidx st2 = i_outidx st1 /\ i_log st2 = i_log st1
+                    i_outidx st2 = i_outidx st1 /\ i_log st2 = i_log st1 /\
+                    i_nout st2 = i_nout st1
   | GRNone _ | GRErr _ _ => False
   | _ => True
   end.
@@ -310,9 +312,11 @@ Lemma get_row_inv : forall fuel st,
       exists c', snext fuel (i_iter st) (i_ctx st) = NDone (SI [] Iterate) c' /\
                  st1 = with_iter_ctx st (SI [] Iterate) c' []
   | GRRow _ st1 =>
-      io_same (i_ctx st) (i_ctx st1) /\ i_log st1 = i_log st /\ i_outidx st1 = i_outidx st
+      io_same (i_ctx st) (i_ctx st1) /\ i_log st1 = i_log st /\ i_outidx st1 = i_outidx st /\
+      i_nout st1 = i_nout st
   | GRErr _ st1 =>
       io_same (i_ctx st) (i_ctx st1) /\ i_log st1 = i_log st /\ i_outidx st1 = i_outidx st /\
+      i_nout st1 = i_nout st /\
       i_cache st = [] /\ i_cache st1 = [] /\ i_iter st1 = i_iter st
   | _ => True
   end.
@@ -324,21 +328,21 @@ Proof.
       cbn [nres_io] in Hio; try exact I.
     + match goal with |- context [finish_row ?sx] => pose proof (finish_row_inv sx) as Hf;
         destruct (finish_row sx) as [st2|er st2|x st2|s0|] end; try contradiction; try exact I.
-      destruct Hf as [H1 [H2 [H3 H4]]]. cbn in H1, H3, H4.
-      rewrite H1, H3, H4. auto.
+      destruct Hf as [H1 [H2 [H3 [H4 H5]]]]. cbn in H1, H3, H4, H5.
+      rewrite H1, H3, H4, H5. auto.
     + split; [reflexivity|]. pose proof (snext_done_shape _ _ _ _ _ Hn) as Hs. subst it'.
       exists c'. split; reflexivity.
     + cbn. auto 10.
   - pose proof (finish_row_inv st) as Hf.
     destruct (finish_row st) as [st2|er st2|x st2|s|]; try contradiction; try exact I.
-    destruct Hf as [H1 [H2 [H3 H4]]]. rewrite H1, H3, H4. split; [apply io_same_refl|auto].
+    destruct Hf as [H1 [H2 [H3 [H4 H5]]]]. rewrite H1, H3, H4, H5. split; [apply io_same_refl|auto].
 Qed.
 
 Lemma get_row_preserves : forall fuel st,
   match get_row fuel st with
   | GRNone st1 | GRRow _ st1 | GRErr _ st1 =>
       couts (i_ctx st1) = couts (i_ctx st) /\ calt (i_ctx st1) = calt (i_ctx st) /\
-      i_log st1 = i_log st /\ i_outidx st1 = i_outidx st
+      i_log st1 = i_log st /\ i_outidx st1 = i_outidx st /\ i_nout st1 = i_nout st
   | _ => True
   end.
 Proof.
@@ -346,9 +350,9 @@ Proof.
   destruct (get_row fuel st) as [st1|er st1|x st1|s|]; try exact I.
   - destruct H as [Hc [c' [Hn Hs]]]. subst st1. cbn.
     pose proof (snext_io fuel (i_iter st) (i_ctx st)) as Hio. rewrite Hn in Hio.
-    destruct Hio as [K1 K2]. auto.
-  - destruct H as [[K1 K2] [K3 K4]]. auto.
-  - destruct H as [[K1 K2] [K3 [K4 _]]]. auto.
+    destruct Hio as [K1 K2]. auto 10.
+  - destruct H as [[K1 K2] [K3 [K4 K5]]]. auto 10.
+  - destruct H as [[K1 K2] [K3 [K4 [K5 _]]]]. auto 10.
 Qed.
 
 (* ---------------------------------------------------------------- extraction of the outputs *)
@@ -379,11 +383,11 @@ Proof.
 Qed.
 
 (* swap_vars before the loop, swap_vars after it: only the generator may have moved *)
-Lemma extract_output_values_rng_only : forall oi outs c c2 r,
-  extract_output_values G tc oi outs c = (c2, r) -> rng_only c c2.
+Lemma extract_output_values_rng_only : forall nout oi outs c c2 r,
+  extract_output_values G tc nout oi outs c = (c2, r) -> rng_only c c2.
 Proof.
-  intros oi outs c c2 r H. unfold extract_output_values in H.
-  destruct (negb (Nat.eqb (length outs) (num_outputs oi))).
+  intros nout oi outs c c2 r H. unfold extract_output_values in H.
+  destruct (negb (Nat.eqb (length outs) nout)).
   - inversion H; subst. apply rng_only_refl.
   - destruct (extract_loop G tc (combine (tc_expected_indices tc) oi) outs (ctx_swap_vars c))
       as [c1 r1] eqn:E.
@@ -406,7 +410,7 @@ Lemma inext_inv : forall fuel st,
         ((er_update_output er = true /\
           exists outs c2 vals,
             D (i_log st) (RW, er_inputs er) = DrvOk outs /\
-            extract_output_values G tc (i_outidx st1) outs
+            extract_output_values G tc (i_nout st1) (i_outidx st1) outs
               (ctx_set_outputs (i_ctx st1) (outs_map outs)) = (c2, Ok vals) /\
             row = into_data_row er vals /\
             st' = with_ctx_log st1 c2 (i_log st ++ [(RW, er_inputs er)]))
@@ -427,7 +431,7 @@ Lemma inext_inv : forall fuel st,
       \/
       (exists er st1 outs c2, get_row fuel st = GRRow er st1 /\ er_update_output er = true /\
          D (i_log st) (RW, er_inputs er) = DrvOk outs /\
-         extract_output_values G tc (i_outidx st1) outs
+         extract_output_values G tc (i_nout st1) (i_outidx st1) outs
            (ctx_set_outputs (i_ctx st1) (outs_map outs)) = (c2, Err r) /\
          st' = with_ctx_log st1 c2 (i_log st ++ [(RW, er_inputs er)]))
   | ItPanic _ | ItOOF => True
@@ -441,7 +445,7 @@ Proof.
     destruct (er_update_output er) eqn:Hu.
     + destruct (D (i_log st) (RW, er_inputs er)) as [e|outs] eqn:HD.
       * exists er, st1. split; [reflexivity|]. rewrite Hu. cbv zeta. auto.
-      * destruct (extract_output_values G tc (i_outidx st1) outs
+      * destruct (extract_output_values G tc (i_nout st1) (i_outidx st1) outs
                     (ctx_set_outputs (i_ctx st1) (outs_map outs))) as [c2 [vals|r|s|]] eqn:He;
           try exact I.
         -- exists er, st1. split; [reflexivity|]. left. split; [exact Hu|].
@@ -547,12 +551,12 @@ Qed.
 Corollary none_state_shape : forall fuel st st',
   inext fuel st = ItNone st' ->
   i_iter st' = SI [] Iterate /\ i_cache st' = [] /\ i_log st' = i_log st /\
-  i_prev st' = i_prev st /\ i_outidx st' = i_outidx st.
+  i_prev st' = i_prev st /\ i_outidx st' = i_outidx st /\ i_nout st' = i_nout st.
 Proof.
   intros fuel st st' H.
   pose proof (inext_inv fuel st) as Hi. rewrite H in Hi.
   pose proof (get_row_inv fuel st) as Hg. rewrite Hi in Hg.
-  destruct Hg as [Hc [c' [Hn Hs]]]. subst st'. cbn. auto.
+  destruct Hg as [Hc [c' [Hn Hs]]]. subst st'. cbn. auto 10.
 Qed.
 
 (* ---------------------------------------------------------------- (b) n calls of next() *)
@@ -761,6 +765,40 @@ Proof.
   - destruct H as [_ H]. congruence.
   - destruct H as [er [st1 [_ [_ H]]]]. congruence.
   - destruct H as [H _]. congruence.
+Qed.
+
+(* the recorded length of the first answer, and the output indices, never change *)
+Theorem inext_nout : forall fuel st,
+  match inext fuel st with
+  | ItNone st' | ItRow _ st' | ItErr _ st' =>
+      i_nout st' = i_nout st /\ i_outidx st' = i_outidx st
+  | _ => True
+  end.
+Proof.
+  intros fuel st. pose proof (inext_inv fuel st) as H.
+  pose proof (get_row_preserves fuel st) as K.
+  destruct (inext fuel st) as [st'|row st'|[e|r] st'|s|]; try exact I.
+  - rewrite H in K. tauto.
+  - destruct H as [er [st1 [Hg [[Hu [outs [c2 [vals [HD [He [Hr Hs]]]]]]]|[Hu [outs [HD [Hr Hs]]]]]]]];
+      rewrite Hg in K; subst st'; cbn; tauto.
+  - destruct H as [er [st1 [Hg [HD Hs]]]]. rewrite Hg in K. subst st'. cbn. tauto.
+  - destruct H as [[x [Hr Hg]]|[er [st1 [outs [c2 [Hg [Hu [HD [He Hs]]]]]]]]]; rewrite Hg in K.
+    + tauto.
+    + subst st'. cbn. tauto.
+Qed.
+
+Theorem try_new_nout :
+  match try_new with
+  | NewOk st => exists ins outs, generate_default_input_entries tc = Ok ins /\
+                  D [] (RW, ins) = DrvOk outs /\ i_nout st = length outs
+  | _ => True
+  end.
+Proof.
+  unfold Iter.try_new.
+  destruct (generate_default_input_entries tc) as [ins|r|s|]; try exact I.
+  cbv zeta. destruct (D [] (RW, ins)) as [e|outs] eqn:HD; [exact I|].
+  destruct (build_output_indices tc outs) as [oi|r|s|]; try exact I.
+  exists ins, outs. cbn. auto.
 Qed.
 
 End ITERLOG.
